@@ -104,8 +104,10 @@ async fn run_history(c: &Value) -> Value {
           },
           Err(e) => note = json!({"send_error": e.to_string()}),
         }
-        if peer.is_none() {
-          peer = peer_side.lock().unwrap().take();
+        // a (re)dial leaves the new link's far end here
+        if let Some(np) = peer_side.lock().unwrap().take() {
+          peer = Some(np);
+          pbuf.clear();
         }
       },
       "reply" => {
@@ -125,6 +127,18 @@ async fn run_history(c: &Value) -> Value {
             id,
             payload.len(),
             payload
+          );
+          let _ = p.write_all(frame.as_bytes()).await;
+        }
+      },
+      "reply_oversize" => {
+        // a reply announcing a payload longer than the session's max_payload_size (1024); the peer keeps the link open
+        let id = op["id"].as_u64().unwrap();
+        if let Some(p) = peer.as_mut() {
+          let frame = format!(
+            "S2M_FORWARD_BROADCAST_PAYLOAD_ACK id={} valid=true altered_payload=true altered_payload_length={}\nxxxxxxxxxx\n",
+            id,
+            op.get("len").and_then(|v| v.as_u64()).unwrap_or(5000)
           );
           let _ = p.write_all(frame.as_bytes()).await;
         }
